@@ -51,6 +51,8 @@ def gen(r, algo=None, focus=None, tier="quick", offgrid=False):
            "ram": float(ram) if ram.denominator != 1 else int(ram), "multi": multi, "over": over}
     pipes = gen_pipes(r, nticks, tps, ram, focus, offgrid=offgrid)
     scn = {"kind": "sys", "cfg": cfg, "pipes": pipes}
+    if r.random() < 0.08:
+        scn["params_as_file"] = True
     if r.random() < 0.15 and nticks > 2:
         scn["decoy_at"] = r.randint(1, max(1, nticks // 2))      # another Executor is constructed while this run is live
     return scn
@@ -174,7 +176,10 @@ def gen_generated(r, algo=None, tier="quick"):
            "num_pipelines": r.choice([1, 2, 4, 7]), "num_operators": r.choice([1, 2, 5, 9]),
            "interactive_prob": i, "query_prob": q, "batch_prob": b,
            "cpu_io_ratio": r.choice([0, 0.25, 0.5, 0.75, 1]), "random_seed": r.randint(0, 10 ** 6)}
-    return {"kind": "sys", "cfg": cfg}
+    scn = {"kind": "sys", "cfg": cfg}
+    if r.random() < 0.1:
+        scn["params_as_file"] = True
+    return scn
 
 
 def gen_uncontended(r, tier="quick"):
